@@ -21,6 +21,9 @@ Histories across processes are not enumerated: V makes the outcome independent o
 
 Round 4: functions installed from a per-process table; nothing but module dunders is stored
 into the generated module.
+
+Round 5: (W) a lossy errors= handler on the cache file makes the file differ from the hashed
+text.
 """
 import ast
 import builtins
